@@ -236,7 +236,7 @@ func c02Case(r *evid.Run, tier string, idx int, g *rng.R) {
 	cfg.Filters = true
 	for i := 0; i < n1; i++ {
 		var head xast.Expr
-		switch g.Intn(6) {
+		switch g.Intn(7) {
 		case 5:
 			head = xast.Var{Local: "shuf"}
 		case 0:
@@ -245,6 +245,16 @@ func c02Case(r *evid.Run, tier string, idx int, g *rng.R) {
 			head = xast.Var{Local: "rev"}
 		case 2:
 			head = xast.Call{Prefix: "v", Local: "nodes"}
+		case 3:
+			// the namespace and attribute nodes of the same elements in one set: namespace nodes come first
+			x := gen.AbsPath(2)
+			a, b := x, x
+			a.Steps = append(append([]xast.Step{}, x.Steps...), xast.S("namespace", xast.AnyT()))
+			b.Steps = append(append([]xast.Step{}, x.Steps...), xast.Step{Axis: "attribute", Test: xast.AnyT(), Abbrev: true})
+			if g.Bool() {
+				a, b = b, a
+			}
+			head = xast.Paren{X: xast.Binary{Op: "|", L: a, R: b}}
 		default:
 			inner := gen.AbsPath(1)
 			if g.P(30) {
